@@ -31,12 +31,64 @@ def _cfg_formula(ex):
     return f_and(*parts)
 
 
+def _decided(ex, atom) -> bool:
+    """the static configuration decides `atom` as true"""
+    return any(v is True and t == atom for t, v in ex.config)
+
+
+def _item_kind(t, root, name):
+    """'plain' for root[name]; 'shaped' for Const(root[name], const_item_shape(root, name)); None otherwise"""
+    if t == ("i", root, name):
+        return "plain"
+    m = pmatch("Const(Q_v, const_item_shape(Q_c, Q_n))", t)
+    if m is not None and m["v"] == ("i", root, name) and m["c"] == root and m["n"] == name:
+        return "shaped"
+    return None
+
+
+def const_item_shape_rule(ctx):
+    """the declared shape of item `name` of a constant: the element shape of an ArrayLayout, the member's shape otherwise"""
+    try:
+        fn = Fn(ctx.repo, REL, "const_item_shape", "C40")
+    except AnalysisError:
+        return  # no such helper: `C40.const-items-shaped` / `C40.recursion-arguments` say whether items are shaped at all
+    const, name = fn.param(0), fn.param(1)
+    ok = True
+    kinds = set()
+    for ex in fn.exs:
+        rets = [r for r in ex.of(Return) if r.callid is None]
+        if len(rets) != 1:
+            ok = False
+            continue
+        v = rets[0].value
+        lay = None
+        for x in subterms(v):
+            if isinstance(x, tuple) and x and x[0] in ("v", "call"):
+                d = ex.vardef(x) if x[0] == "v" else x
+                if d == ("call", ("a", const, "shape"), (), ()):
+                    lay = x
+        if lay is None:
+            ok = False
+            continue
+        if v == ("ife", ("call", ("n", "isinstance"), (lay, ("a", ("n", "data"), "ArrayLayout")), ()), ("a", lay, "elem_shape"), ("i", ("a", lay, "members"), name)):
+            kinds |= {"array", "struct"}
+        elif v == ("a", lay, "elem_shape") and _decided(ex, ("call", ("n", "isinstance"), (lay, ("a", ("n", "data"), "ArrayLayout")), ())):
+            kinds.add("array")
+        elif v == ("i", ("a", lay, "members"), name):
+            kinds.add("struct")
+        else:
+            ok = False
+    ctx.check(ok and kinds == {"array", "struct"}, "C40.const-item-shape", fn.site, "const_item_shape", found="; ".join(tstr(r.value)[:120] for ex in fn.exs for r in ex.of(Return)) or "not found",
+              required="layout.elem_shape for an ArrayLayout constant, layout.members[name] otherwise")
+
+
 def selection(ctx):
     fn = Fn(ctx.repo, REL, "assign", "C40")
     LHS, RHS, FIELDS = fn.param(0), fn.param(1), ("p", fn.fi.qualname, "kw:fields", "fields")
     AT = lambda n: ("a", ("n", "AssignType"), n)  # noqa: E731
     rows = {"COMMON": 0, "LHS": 0, "RHS": 0, "ALL": 0, "explicit": 0}
     n_rec = 0
+    shaped_seen = [False]
     for ex in fn.exs:
         ys = [e for e in ex.of(Effect) if _yield_arg(e) is not None and loops(e)]
         if not ys:
@@ -73,13 +125,21 @@ def selection(ctx):
             call = _yield_arg(e)
             if call[0] == "v":
                 call = ex.vardefs.get(call[2], call)
-            ok = call[0] == "call" and call[1] == ("n", "assign") and len(call[2]) == 2 and call[2][0] == ("i", LHS, b) and call[2][1] == ("i", RHS, b)
-            ctx.check(ok, "C40.recursion-arguments", e.site, f"assign.recursion[{decided}]", found=tstr(call)[:160], required="assign(lhs[name], rhs[name], ...): the same field of both sides, left stays left")
+            # ... where an item of a constant of a layout (a plain int) is given the shape the layout declares (F22):
+            # exactly in the configurations decided "rhs is a data.Const and the item is an int"
+            ritem = call[2][1] if call[0] == "call" and len(call[2]) == 2 else None
+            kind = _item_kind(ritem, RHS, b) if ritem is not None else None
+            const_int = _decided(ex, ("call", ("n", "isinstance"), (RHS, ("a", ("n", "data"), "Const")), ())) and _decided(ex, ("call", ("n", "isinstance"), (("i", RHS, b), ("n", "int")), ()))
+            shaped_seen[0] = shaped_seen[0] or kind == "shaped"
+            ok = call[0] == "call" and call[1] == ("n", "assign") and len(call[2]) == 2 and call[2][0] == ("i", LHS, b) and kind == ("shaped" if const_int else "plain")
+            ctx.check(ok, "C40.recursion-arguments", e.site, f"assign.recursion[{decided}]", found=tstr(call)[:160], required="assign(lhs[name], rhs[name], ...): the same field of both sides, left stays left; an int item of a data.Const carries its declared shape")
             if ok:
                 # strictness of a side: it is a value (View) and the selected field is not a plain python int
                 kws = dict(call[3])
                 for side, root in (("lhs_strict", LHS), ("rhs_strict", RHS)):
                     want_s = to_formula(pat_with("isinstance(ROOT, ValueLike) and not isinstance(ROOT[NAME], int)", root, b))
+                    if side == "rhs_strict" and kind == "shaped":
+                        want_s = to_formula(("op", "and", ("call", ("n", "isinstance"), (root, ("n", "ValueLike")), ()), ("op", "not", ("call", ("n", "isinstance"), (ritem, ("n", "int")), ()))))
                     got_s = to_formula(kws[side]) if side in kws else False
                     ctx.check(side in kws and equivalent(got_s, want_s) is None, "C40.recursion-strictness", e.site, f"assign.recursion.{side}[{decided}]", found=tstr(kws.get(side, ("c", None)))[:120],
                               required=f"{side} = the side is a value and its field of the same name is not a python int (fields of a View have explicit shapes)")
@@ -97,6 +157,8 @@ def selection(ctx):
                           required="nested selection: fields[name] for a mapping, ALL below an explicit list of names, the same mode otherwise")
     for k, v in rows.items():
         ctx.floor("C40", f"recursive yields for fields={k}", v, 1, fn.site)
+    ctx.check(shaped_seen[0], "C40.const-items-shaped", fn.site, "assign.recursion.const-items", found="an int item of a data.Const is given its declared shape" if shaped_seen[0] else "an item of a data.Const is passed on as a bare int (never shape-checked)",
+              required="an item taken out of a data.Const is a bare python int: it is wrapped with the shape its layout declares before the recursive assign, so that the shape check applies")
     # missing-field raises and the empty-selection raise exist for the structured branch
     rs = fn.facts(Raise)
     key = [(ex, r) for ex, r in rs if loops(r) and pmatch("KeyError(Q_m)", r.exc)]
@@ -126,6 +188,41 @@ def selection(ctx):
         sel_empty = f_and(*[f_not(A(a)) for a in cand]) if cand else True
         ok = ok and len(fs) == 2 and implies(g, nonempty) is None and (implies(g, sel_empty) is None) and (bool(cand) or any(implies(g, f_not(A(a))) is None for a in fs))
     ctx.check(ok, "C40.empty-selection-raises", emp[0][1].site if emp else fn.site, "assign.empty-selection", found=f"{len(emp)} raise(s)", required="an empty selection over non-empty structures raises", nontrivial=False)
+
+
+def _explicit_shape_helper(ctx, fn, ex):
+    """The nested explicit-shape test: Signal / ArrayProxy / Slice / ValueCastable have one - and so has the sign conversion
+    of a value that has one (a signed field of a View is `Slice(..).as_signed()`: F21)."""
+    from ..lam import closure_cases
+
+    if ctx.__dict__.get("_c40_helper_done"):
+        return
+    ctx.__dict__["_c40_helper_done"] = True
+    ok = False
+    detail = "no nested helper"
+    for clo in ex.closures.values():
+        cs = closure_cases(clo)
+        if cs is None or cs[0] != 1:
+            continue
+        cases = cs[1]
+        detail = "; ".join((tstr(c) + " -> " if c is not None else "") + tstr(v) for c, v in cases)[:300]
+        base = [v for c, v in cases if c is None]
+        conv = [(c, v) for c, v in cases if c is not None]
+        mb = pmatch("isinstance(Q_v, Q_t)", base[0]) if len(base) == 1 else None
+        okb = mb is not None and mb["v"] == ("lp", 0) and mb["t"][0] == "tuple" and {tstr(x) for x in mb["t"][1:]} == {"Signal", "ArrayProxy", "Slice", "ValueCastable"}
+        okc = False
+        for c, v in conv:
+            # isinstance(val, Operator) and val.operator in ("s", "u")  ->  helper(val.operands[0])
+            from ..logic import atoms_of as _ao
+
+            ats_ = _ao(to_formula(c))
+            is_op = any(pmatch("isinstance(Q_v, Operator)", a) == {"v": ("lp", 0)} for a in ats_)
+            sign = any(a[0] == "op" and a[1] == "in" and a[2] == ("a", ("lp", 0), "operator") and a[3][0] in ("tuple", "list", "set") and {x[1] for x in a[3][1:]} == {"s", "u"} for a in ats_)
+            rec = v[0] == "call" and v[2] == (("i", ("a", ("lp", 0), "operands"), ("c", 0)),) and (v[1] == ("n", clo.name) or v[1][0] in ("lam", "obj", "v", "n"))
+            okc = okc or (is_op and sign and rec and len(ats_) == 2)
+        ok = ok or (okb and okc)
+    ctx.check(ok, "C40.explicit-shape", fn.site, "assign.has_explicit_shape", found=detail,
+              required="explicit shape: Signal, ArrayProxy, Slice, ValueCastable - and a sign conversion (Operator 's' / 'u') of a value that has one")
 
 
 def leaf(ctx):
@@ -166,7 +263,19 @@ def leaf(ctx):
             if val[0] == "loopvar":
                 test = ex.loopdefs.get(("while", val[2]), (None, None))[0]
                 init, step = ex.loopdefs[(val[1], val[2])]
-                okw = test is not None and has("1 == len(Q_f)", test) and all(implies(to_formula(test), f_not(A(mk_op("is", ("c", None), m_["f"])))) is None for m_ in find_all("1 == len(Q_f)", test)) and step is not None and pmatch("Q_v[next(iter(Q_f))]", step) is not None and pmatch("Q_v[next(iter(Q_f))]", step)["v"] == val
+                # the step takes the only field (an int item of a data.Const with its declared shape)
+                def only_field(st):
+                    if st is None:
+                        return False
+                    mc = pmatch("Const(Q_x, const_item_shape(Q_c, Q_n))", st)
+                    if mc is not None:
+                        return mc["c"] == val and only_field(mc["x"]) and (ex.vardef(mc["n"]) or mc["n"]) == (ex.vardef(mc["x"][2]) or mc["x"][2])
+                    if st[0] == "i" and st[1] == val:
+                        nm_ = ex.vardef(st[2]) or st[2]
+                        return pmatch("next(iter(Q_f))", nm_) is not None
+                    return False
+
+                okw = test is not None and has("1 == len(Q_f)", test) and all(implies(to_formula(test), f_not(A(mk_op("is", ("c", None), m_["f"])))) is None for m_ in find_all("1 == len(Q_f)", test)) and only_field(step)
                 ctx.check(okw, "C40.singleton-unwrapping", ys[0].site, f"assign.leaf.unwrap[{tstr(root)}]", found=f"while {tstr(test) if test else '?'}: {tstr(step) if step else '?'}",
                           required="only a structure with exactly one field is replaced by that field", nontrivial=False)
         # the shape comparison is lhs against rhs, and the statement is not reached when it fails under the strict condition
@@ -183,9 +292,33 @@ def leaf(ctx):
     for ex, r in rs:
         ats = atoms_of(py_guard(r))
         S_L, S_R = ("p", fn.fi.qualname, "kw:lhs_strict", "lhs_strict"), ("p", fn.fi.qualname, "kw:rhs_strict", "rhs_strict")
-        strict = [a for a in ats if a in (S_L, S_R)]
+        # a strict flag may have gone through the unwrapping loop (set when a data.Const item was given its shape)
+        def flag_of(a, param):
+            if a == param:
+                return True
+            if a[0] == "loopvar":
+                d_ = ex.loopdefs.get((a[1], a[2]))
+                return d_ is not None and d_[0] == param and d_[1] in (None, ("c", True), a)
+            return False
+
+        sl = [a for a in ats if flag_of(a, S_L)]
+        sr = [a for a in ats if flag_of(a, S_R)]
+        strict = sl + sr
+        if len(sl) == 1 and len(sr) == 1:
+            S_L, S_R = sl[0], sr[0]
         vc = [a for a in ats if pmatch("isinstance(Q_x, ValueCastable)", a)]
         ex_ = [a for a in ats if pmatch("isinstance(Q_x, Q_types)", a) and pmatch("isinstance(Q_x, Q_types)", a)["types"][0] in ("tuple", "list") and a not in vc]
+        # ... or the explicit-shape test is a nested helper applied to the side's value
+        nested = {("n", c_.name) for c_ in ex.closures.values()} | {("lam", cid_) for cid_ in ex.closures}
+        helper_calls = [a for a in ats if a[0] == "call" and a[1] in nested and len(a[2]) == 1 and not a[3]]
+        if not ex_ and len(helper_calls) == 2:
+            ex_ = helper_calls
+            _explicit_shape_helper(ctx, fn, ex)
+        elif ex_ and not ctx.__dict__.get("_c40_helper_done"):
+            # a bare isinstance test cannot see through the sign conversion of a signed View field (F21)
+            ctx.__dict__["_c40_helper_done"] = True
+            ctx.bad("C40.explicit-shape", r.site, "assign.has_explicit_shape", found="; ".join(tstr(a)[:100] for a in ex_[:2]),
+                    required="explicit shape: Signal, ArrayProxy, Slice, ValueCastable - and a sign conversion (Operator 's' / 'u') of a value that has one")
         eqs = [a for a in ats if pmatch("shape_of(Q_a) == shape_of(Q_b)", a)]
         ok = ok and len(strict) == 2 and len(vc) == 2 and len(ex_) == 2 and len(eqs) == 1
         if ok:
@@ -235,7 +368,11 @@ def union(ctx):
             call = ex.vardefs.get(call[2], call)
         ok = call[0] == "call" and call[1] == ("n", "assign") and len(call[2]) == 2
         if ok:
-            ml, mr = pmatch("Q_l[Q_n]", call[2][0]), pmatch("Q_r[Q_n]", call[2][1])
+            r_arg = call[2][1]
+            mcs = pmatch("Const(Q_x, const_item_shape(Q_c, Q_n))", r_arg)
+            if mcs is not None and mcs["c"] == RHS:
+                r_arg = mcs["x"]  # an int item of a data.Const, given its declared shape
+            ml, mr = pmatch("Q_l[Q_n]", call[2][0]), pmatch("Q_r[Q_n]", r_arg)
             ok = ml is not None and mr is not None and ml["l"] == LHS and mr["r"] == RHS and ml["n"] == mr["n"]
             if ok:
                 nm = ml["n"]
@@ -302,13 +439,42 @@ def pat_sub(text, val):
     return subst(pat(text), {("n", "val"): val})
 
 
+def proxy_fields(ctx):
+    """The fields of an Array proxy are the fields common to its elements, each computed as for a single view (so that
+    elements whose layout has no `.members` - an ArrayLayout - work, F20), and there are none if an element has none."""
+    fn = Fn(ctx.repo, REL, "arrayproxy_fields", "C40")
+    ok = False
+    detail = "no result"
+    for ex in fn.exs:
+        for r in ex.of(Return):
+            if r.callid is not None:
+                continue
+            v = r.value
+            detail = tstr(v)[:200]
+            m = pmatch("set.intersection(*Q_l)", v)
+            if m is None:
+                continue
+            lst = m["l"]
+            mc = pmatch("cast(Q_t, Q_x)", lst)
+            if mc is not None:
+                lst = mc["x"]
+            d = ex.vardef(lst) or lst
+            if d[0] == "lc" and len(d[3]) == 1 and d[2] == ("call", ("n", "assign_arg_fields"), (d[3][0][0],), ()):
+                g = py_guard(r)
+                ok = any("None" in tstr(a) for a in atoms_of(g)) or any("None" in tstr(t) for t, _ in ex.config)
+    ctx.check(ok, "C40.proxy-fields", fn.site, "arrayproxy_fields", found=detail,
+              required="set.intersection of assign_arg_fields(element) over all elements, only when every element has fields")
+
+
 def check(ctx):
     ctx.use(REL)
     enum_and_defaults(ctx)
     selection(ctx)
+    const_item_shape_rule(ctx)
     leaf(ctx)
     union(ctx)
     arg_fields(ctx)
+    proxy_fields(ctx)
 
 
 MUTANTS = [
